@@ -7,46 +7,91 @@ Open Scope Z_scope.
    table the loop never runs out of fuel, whatever ComputeLD returns (NaN included) -
    every iteration removes at least the index variant. *)
 Theorem C17_clump_terminates :
-  forall (G : Type) p1 kb (load : svar -> res G) pass,
+  forall (G : Type) p1 win (load : svar -> res G) pass,
   (forall iv, load iv <> Err E_Timeout) ->
   (forall gi iv c, pass gi iv c <> Err E_Timeout) ->
   forall fuel stats, (length stats <= fuel)%nat ->
-  clump_loop fuel p1 kb load pass stats <> Err E_Timeout.
+  clump_loop fuel p1 win load pass stats <> Err E_Timeout.
 Proof. exact @clump_loop_fuel. Qed.
 Print Assumptions C17_clump_terminates.
 
 Theorem C17_clump_terminates_total :
-  forall p1 kb (pb : svar -> svar -> bool) stats,
-  exists cl, clump_loop_total (length stats) p1 kb pb stats = Ok cl.
+  forall p1 win (pb : svar -> svar -> bool) stats,
+  exists cl, clump_loop_total (length stats) p1 win pb stats = Ok cl.
 Proof. exact clump_terminates_total. Qed.
 Print Assumptions C17_clump_terminates_total.
 
 (* The output is greedy clumping: each clump's index is, among the not-yet-clumped
    variants, eligible (p < p1, p < 1), of minimal p, the first in file order among ties;
-   its members are exactly the not-yet-clumped variants on the index's chromosome
-   strictly within the window that pass the r2 test; the loop stops only when no
-   eligible variant is left. *)
+   its members are exactly the not-yet-clumped variants that are in the window of the
+   index (for every window predicate [win]: the code's float64 test win_float kb, or the
+   rational test win_q kb) and pass the r2 test; the loop stops only when no eligible
+   variant is left. *)
 Theorem C17_clump_is_greedy :
-  forall p1 kb pb fuel stats cl,
-  clump_loop_total fuel p1 kb pb stats = Ok cl -> greedy p1 kb pb stats cl.
+  forall p1 win pb fuel stats cl,
+  clump_loop_total fuel p1 win pb stats = Ok cl -> greedy p1 win pb stats cl.
 Proof. exact clump_loop_greedy. Qed.
 Print Assumptions C17_clump_is_greedy.
 
-(* No variant ID appears in two clumps (as index or as member). *)
+(* No variant - row of the tables, identified by its load key as the code identifies a Variant
+   object - appears in two clumps (as index or as member), whatever the IDs ... *)
 Theorem C17_clumps_disjoint :
-  forall p1 kb pb fuel stats cl,
-  clump_loop_total fuel p1 kb pb stats = Ok cl ->
-  ForallOrdPairs (fun c1 c2 => forall x, In x (clump_ids c1) -> In x (clump_ids c2) -> False) cl.
+  forall p1 win pb fuel stats cl,
+  clump_loop_total fuel p1 win pb stats = Ok cl ->
+  ForallOrdPairs (fun c1 c2 => forall x, In x (clump_keys c1) -> In x (clump_keys c2) -> False) cl.
 Proof. intros. eapply greedy_disjoint. eapply clump_loop_greedy. eassumption. Qed.
 Print Assumptions C17_clumps_disjoint.
+
+(* ... and with distinct variant IDs no ID appears in two clumps. *)
+Theorem C17_clumps_disjoint_ids :
+  forall p1 win pb fuel stats cl,
+  NoDup (map sv_id stats) ->
+  clump_loop_total fuel p1 win pb stats = Ok cl ->
+  ForallOrdPairs (fun c1 c2 => forall x, In x (clump_ids c1) -> In x (clump_ids c2) -> False) cl.
+Proof. intros. eapply greedy_disjoint_ids; [eassumption|]. eapply clump_loop_greedy. eassumption. Qed.
+Print Assumptions C17_clumps_disjoint_ids.
+
+(* clumpstr as a whole with the Pearson oracle: whenever the model returns clumps, the two tables
+   loaded (every loaded variant has p <= p2), the genotype sets merged, and the clumps are the
+   greedy clumping of the loaded statistics: index order and ties, members = not-yet-clumped
+   variants in the window (any window predicate; the code's is the float64 test win_float kb,
+   C17_Check.model_clump) with exactly one genotype
+   record whose squared dosage correlation with the index over the complete samples exceeds
+   clump_r2, removal of index and members, and no loaded row in two clumps. *)
+Theorem C17_clumpstr_is_greedy :
+  forall win k cl,
+  clumpstr pearson_oracle win k = Ok cl ->
+  exists s1 s2 gts,
+    opt_load (k_hdr_snp k) (k_fields k) (k_p2 k) 0 (k_rows_snp k) = Ok s1 /\
+    opt_load (k_hdr_str k) (k_fields k) (k_p2 k) 1 (k_rows_str k) = Ok s2 /\
+    merged_gts (k_snps k) (k_strs k) = Ok gts /\
+    let stats := rekey 0 (s1 ++ s2) in
+    map sv_id stats = map sv_id (s1 ++ s2) /\
+    Forall (fun v => (sv_p v <= k_p2 k)%Q) stats /\
+    NoDup (map sv_key stats) /\
+    greedy (k_p1 k) win (pearson_pb (k_r2 k) gts) stats cl /\
+    ForallOrdPairs (fun c1 c2 => forall x, In x (clump_keys c1) -> In x (clump_keys c2) -> False) cl.
+Proof. exact clumpstr_greedy. Qed.
+Print Assumptions C17_clumpstr_is_greedy.
+
+(* a partial run of the loop (genotype lookups may fail) that succeeds is the total loop with
+   any boolean test that agrees with the lookups made *)
+Theorem C17_partial_loop_is_total :
+  forall (G : Type) p1 win (load : svar -> res G) pass (pb : svar -> svar -> bool),
+  (forall iv gi c b, load iv = Ok gi -> pass gi iv c = Ok b -> pb iv c = b) ->
+  forall fuel stats cl,
+  clump_loop fuel p1 win load pass stats = Ok cl ->
+  clump_loop_total fuel p1 win pb stats = Ok cl.
+Proof. exact @clump_loop_as_total. Qed.
+Print Assumptions C17_partial_loop_is_total.
 
 (* The hypotheses are satisfiable and the statement is not vacuous: a table with a tie,
    p = 0, p = 1 and a constant-genotype index (r2 with itself NaN, never "passes"). *)
 Example C17_greedy_example :
-  let v i p := mksv i 1 (1000 + i) p 0 in
+  let v i p := mksv i 1 (1000 + i) p 0 i in
   let st := [v 0 (1#1); v 1 (1#1000); v 2 (0#1); v 3 (1#1000)] in
   option_map (map (fun c : clump => (sv_id (fst c), map sv_id (snd c))))
-    (match clump_loop_total (length st) (1#100) (1#1) (fun iv c => negb (sv_id iv =? 2) && (sv_id c <=? sv_id iv)) st
+    (match clump_loop_total (length st) (1#100) (win_q (1#1)) (fun iv c => negb (sv_id iv =? 2) && (sv_id c <=? sv_id iv)) st
      with Ok cl => Some cl | Err _ => None end)
   = Some [(2, []); (1, [0; 1]); (3, [3])].
 Proof. vm_compute. reflexivity. Qed.
@@ -85,6 +130,15 @@ Theorem C17_exact_r2_range :
 Proof. exact exact_r2_range_tab. Qed.
 Print Assumptions C17_exact_r2_range.
 
+(* The cubic ComputeExactLD solves changes sign on the admissible interval, for every table of
+   non-negative counts: cubic(minhap) = - n11 f00 f11 <= 0 <= n11 f01 f10 = cubic(maxhap).  So an
+   admissible real root always exists (by continuity; not formalised). *)
+Theorem C17_exact_cubic_sign_change :
+  forall t, tab_nonneg t -> (0 < t_n t)%Q ->
+  (cubic t (minhap t) <= 0)%Q /\ (0 <= cubic t (maxhap t))%Q.
+Proof. exact cubic_sign_change. Qed.
+Print Assumptions C17_exact_cubic_sign_change.
+
 (* the hypotheses are satisfiable: 2 samples 0|0 / 0|0, 1 sample 0|1 / 0|0 ... *)
 Example C17_exact_example :
   let t := mkt 2 1 0 1 0 1 0 1 2 in
@@ -97,27 +151,39 @@ Print Assumptions C17_exact_example.
    without missing calls, constant columns giving NaN) never runs out of the fuel it is
    given: one unit per variant of the two tables. *)
 Theorem C17_clumpstr_terminates :
-  forall k, clumpstr pearson_oracle k <> Err E_Timeout.
+  forall win k, clumpstr pearson_oracle win k <> Err E_Timeout.
 Proof. exact clumpstr_terminates. Qed.
 Print Assumptions C17_clumpstr_terminates.
 
 (* The boolean checker evaluated on the rows of the .clump file means the property:
-   index = not-yet-clumped, eligible, minimal p, first in file order among ties; members =
-   exactly the not-yet-clumped variants in the window that pass the r2 test (as a set,
-   without repetition); stops only when nothing is eligible. *)
+   index = not-yet-clumped, satisfies [ei], minimal p among those, first in file order among
+   ties; members (members_spec): every not-yet-clumped variant in the window [wlo] is listed iff
+   it passes the r2 test, everything listed is a not-yet-clumped variant in [wlo] or [whi] that
+   passes, nothing is listed twice; the file ends only when nothing satisfies [es].
+   holds_clump instantiates ei := p < p1, es := p < p1 and p < 1, wlo / whi := |dpos|/1000 < kb
+   over Q with kb the smaller / larger of the decimal typed and the float64 it parses to. *)
 Theorem C17_greedy_okb_sound :
-  forall p1 kb pb obs st,
-  greedy_okb p1 kb (fun iv c => Some (pb iv c)) st obs = true -> greedy_ids p1 kb pb st obs.
+  forall ei es wlo whi pb obs st,
+  greedy_okb ei es wlo whi (fun iv c => Some (pb iv c)) st obs = true -> greedy_ids ei es wlo whi pb st obs.
 Proof. exact greedy_okb_sound. Qed.
 Print Assumptions C17_greedy_okb_sound.
 
-(* ... and the model's output satisfies that same specification *)
+(* with one window predicate the member clause is: listed = the IDs of exactly the not-yet-clumped
+   variants in the window that pass the r2 test, as a duplicate-free set *)
+Theorem C17_members_spec_single :
+  forall win pb iv st ms,
+  members_spec win win pb iv st ms ->
+  (forall x, In x ms <-> In x (map sv_id (members win pb iv st))) /\ NoDup ms.
+Proof. exact members_spec_single. Qed.
+Print Assumptions C17_members_spec_single.
+
+(* ... and the model's output satisfies that same specification (distinct IDs) *)
 Theorem C17_model_meets_checker_spec :
-  forall p1 kb pb fuel stats cl,
-  NoDup (map sv_id stats) ->
-  clump_loop_total fuel p1 kb pb stats = Ok cl ->
-  greedy_ids p1 kb pb stats (ids_of cl).
-Proof. intros. apply greedy_to_ids; [assumption|]. eapply clump_loop_greedy. eassumption. Qed.
+  forall p1 win pb fuel stats cl,
+  NoDup (map sv_key stats) -> NoDup (map sv_id stats) ->
+  clump_loop_total fuel p1 win pb stats = Ok cl ->
+  greedy_ids (eligible p1) (eligible p1) win win pb stats (ids_of cl).
+Proof. intros. apply greedy_to_ids; [assumption|assumption|]. eapply clump_loop_greedy. eassumption. Qed.
 Print Assumptions C17_model_meets_checker_spec.
 
 (* Only variants not above the inclusion threshold are ever loaded ... *)
@@ -204,3 +270,14 @@ Proof.
   repeat split; vm_compute; congruence.
 Qed.
 Print Assumptions C17_exact_range_example.
+
+(* Two rows with the same ID are two variants: removing the clump of the first leaves the second,
+   which becomes an index of its own (removal by load key, as the code's identity comparison). *)
+Example C17_duplicate_id_example :
+  let st := [mksv 7 1 1000 (1#1000) 0 0; mksv 7 1 9000 (1#500) 0 1] in
+  option_map (map (fun c : clump => (sv_key (fst c), map sv_key (snd c))))
+    (match clump_loop_total (length st) (1#100) (win_q (1#1)) (fun _ _ => true) st
+     with Ok cl => Some cl | Err _ => None end)
+  = Some [(0, [0]); (1, [1])].
+Proof. vm_compute. reflexivity. Qed.
+Print Assumptions C17_duplicate_id_example.
